@@ -230,7 +230,7 @@ Lemma ref_ty_dict k0 x0 r : ref_ty (PDict ((k0, x0) :: r)) =
       then
         if forallb (fun kv => subclass (class_of (snd kv)) (class_of x0)) r then
           match ref_ty x0 with
-          | Some vt => if forallb (fun kv => has_ty (ref_ty (snd kv)) vt) r
+          | Some vt => if forallb (fun kv => has_ty (ref_ty (snd kv)) vt || as_base x0 (snd kv)) r
                        then Some (TArray (TDictEntry kt vt)) else None
           | None => None
           end
@@ -636,15 +636,14 @@ Proof.
     unfold lb. apply in_map_iff. exists kv. split; [reflexivity|exact Hkv].
 Qed.
 
-Lemma dict_last_sig (same : bool) ks vs : forall r k v,
-  sig_from_py k = Ok ks -> (same = true -> sig_from_py v = Ok vs) ->
-  Forall (fun kv => sig_from_py (fst kv) = Ok ks /\ (same = true -> sig_from_py (snd kv) = Ok vs)) r ->
-  dict_last same k v (sig_from_py k) (sig_from_py v) r
-  = Ok (97 :: 123 :: ks ++ (if same then vs else [118]) ++ [125]).
+Lemma dict_last_sig (same : bool) sv ks vs : forall r sk,
+  sk = Ok ks -> (same = true -> sv = Ok vs) ->
+  Forall (fun kv => sig_from_py (fst kv) = Ok ks) r ->
+  dict_last same sv sk r = Ok (97 :: 123 :: ks ++ (if same then vs else [118]) ++ [125]).
 Proof.
-  induction r as [|[k' v'] r IH]; intros k v Hk Hv HF.
+  induction r as [|[k' v'] r IH]; intros sk Hk Hv HF.
   - cbn [dict_last]. rewrite Hk. destruct same; [rewrite (Hv eq_refl)|]; reflexivity.
-  - cbn [dict_last]. fold (dict_last same). inversion HF as [|? ? [Hk' Hv'] HF']; subst. cbn [fst snd] in *.
+  - cbn [dict_last]. fold (dict_last same sv). inversion HF as [|? ? Hk' HF']; subst. cbn [fst] in *.
     apply IH; assumption.
 Qed.
 
@@ -658,7 +657,7 @@ Lemma dict_assemble kt vt k0 x0 r (same : bool) :
   distinct_b (map (fun kv => norm (fst kv)) l) = true ->
   Forall (fun kv => exists w, rel vt (snd kv) w) l ->
   forallb (fun kv => subclass (class_of (snd kv)) (class_of x0)) r = same ->
-  (same = true -> Forall (fun kv => sig_from_py (snd kv) = Ok (show vt)) l) ->
+  (same = true -> sig_from_py x0 = Ok (show vt)) ->
   (same = false -> vt = TVariant) ->
   exists w, den (PDict l) (TArray (TDictEntry kt vt)) w.
 Proof.
@@ -674,14 +673,11 @@ Proof.
     apply P_sig; [apply HP; exact Hin|apply Hkeys; exact Hin]. }
   split.
   { unfold l. rewrite sig_dict, Hsame.
-    rewrite (dict_last_sig same (show kt) (show vt)).
+    rewrite (dict_last_sig same (sig_from_py x0) (show kt) (show vt)).
     - cbn [show]. destruct same; [reflexivity|]. rewrite (Hvar eq_refl). reflexivity.
     - inversion Hks; assumption.
-    - intros Hs. specialize (Hsig Hs). inversion Hsig; assumption.
-    - inversion Hks as [|? ? _ Hks']; subst. apply Forall_forall. intros kv Hin. split.
-      + rewrite Forall_forall in Hks'. apply Hks'. exact Hin.
-      + intros Hs. specialize (Hsig Hs). inversion Hsig as [|? ? _ Hsig']; subst.
-        rewrite Forall_forall in Hsig'. apply Hsig'. exact Hin. }
+    - exact Hsig.
+    - inversion Hks; assumption. }
   split; [rewrite conf_array; exists (map (fun kv => PTuple [fst kv; snd kv]) l); split; [reflexivity|exact A]|].
   split; [rewrite wt_array; split; [exact B|apply (dict_keys kt vt l ws); assumption]|].
   split; [apply (dict_eq kt vt l ws); assumption|].
@@ -711,16 +707,17 @@ Proof.
       exfalso; eapply conf_not_fd; exact Hc. }
     destruct (forallb (fun kv => subclass (class_of (snd kv)) (class_of x0)) r) eqn:Esame.
     + destruct (ref_ty x0) as [vt|] eqn:Ex0; [|discriminate].
-      destruct (forallb (fun kv => has_ty (ref_ty (snd kv)) vt) r) eqn:Ev; [|discriminate].
+      destruct (forallb (fun kv => has_ty (ref_ty (snd kv)) vt || as_base x0 (snd kv)) r) eqn:Ev; [|discriminate].
       inversion H; subst. clear H.
-      assert (Hvals : Forall (fun kv => ref_ty (snd kv) = Some vt) ((k0, x0) :: r)).
-      { constructor; [exact Ex0|]. apply Forall_forall. intros kv Hin. rewrite forallb_forall in Ev.
-        apply has_ty_eq. apply Ev; exact Hin. }
+      inversion HPx as [|? ? Px0 HPr]; subst. cbn [snd] in Px0.
       apply (dict_assemble kt vt k0 x0 r true); try assumption.
-      * apply Forall_forall. intros kv Hin. rewrite Forall_forall in HPx, Hvals.
-        destruct (HPx kv Hin vt (Hvals kv Hin)) as [w D]. exists w. apply rel_direct. exact D.
-      * intros _. apply Forall_forall. intros kv Hin. rewrite Forall_forall in HPx, Hvals.
-        apply P_sig; [apply HPx; exact Hin|apply Hvals; exact Hin].
+      * constructor.
+        { cbn [snd]. destruct (Px0 vt Ex0) as [w D]. exists w. apply rel_direct. exact D. }
+        apply Forall_forall. intros kv Hin. rewrite forallb_forall in Ev. rewrite Forall_forall in HPr.
+        specialize (Ev kv Hin). apply orb_true_iff in Ev as [E|E].
+        -- apply has_ty_eq in E. destruct (HPr kv Hin vt E) as [w D]. exists w. apply rel_direct. exact D.
+        -- eapply rel_base; eassumption.
+      * intros _. apply P_sig; assumption.
       * discriminate.
     + match type of H with (if ?c then _ else _) = _ => destruct c eqn:Ev; [|discriminate] end.
       inversion H; subst. clear H. apply andb_true_iff in Ev as [Ev0 Evr].
